@@ -57,9 +57,14 @@ def me2_drop_feeders(ctx, rep):
             continue
         if dispatch_site is not None and ctx.prog.callee_body(dispatch_site) is not None and ctx.prog.callee_body(dispatch_site).path == s.body.path:
             continue  # the channel constructor call inside the helper that builds the dispatch queue
-        if not mets:
-            continue
         n += 1
+        if not mets:
+            rep.ok(R, "feeder:%s" % short(s.body.path), s.where, "channel is created without the store's metrics object: it cannot feed action_dropped")
+            continue
+        view = _non_counting_view(ctx, mets)
+        if view:
+            rep.ok(R, "feeder:%s" % short(s.body.path), s.where, "channel gets the store's metrics behind %s, whose action_dropped does nothing: it cannot feed action_dropped" % view)
+            continue
         # policy argument: the BackpressurePolicy-typed one
         pol = None
         for i, a in enumerate(s.term["args"]):
@@ -77,7 +82,35 @@ def me2_drop_feeders(ctx, rep):
         only_block = vals and all(v == "BlockOnFull" for v in vals)
         rep.check(only_block, R, "feeder:%s" % short(s.body.path), s.where, "channel shares the store's metrics but can only be BlockOnFull (%s): it never feeds action_dropped" % sorted(vals),
                   "a channel with a caller-chosen policy (%s) is created with the store's metrics object: notifications dropped for that channel are added to the store's action_dropped / queue_size" % sorted(vals))
-    rep.floor(R, "non-dispatch channels sharing the store's metrics", n, 2)
+    rep.floor(R, "non-dispatch channel construction sites examined", n, 2)
+
+
+def _non_counting_view(ctx, mets):
+    """the metrics argument is the store's metrics object wrapped in a crate type of its own that
+    implements the metrics trait and whose `action_dropped` reaches neither the counting impl nor
+    any atomic update (it keeps the trait's empty default, or is empty itself): returns the
+    type's name"""
+    A = ctx.A
+    mt = A._mt()
+    for a in mets:
+        for st in subterms(a):
+            if st[0] != "agg" or not st[1].startswith("adt:") or st[1].startswith("adt:std::"):
+                continue
+            adt = st[1][4:].split("<")[0].rsplit("::", 1)[0]
+            impls = [b for b in ctx.prog.bodies if (b.j.get("impl_trait") or "").split("::")[-1].split("<")[0] == mt and (b.j.get("impl_adt") or "").split("<")[0] == adt]
+            if not impls:
+                continue  # not an implementor of the metrics trait
+            own = [b for b in impls if b.j.get("name") == "action_dropped"]
+            if not own:
+                dflt = [b for b in ctx.prog.bodies if not b.j.get("impl_trait") and b.path.endswith("::%s::action_dropped" % mt)]
+                own = dflt
+                if not dflt:
+                    return None
+            reach = ctx.sync_reach(own)
+            feeds = ctx.reach_has_site(reach, lambda x: A.metric_call(x) is not None or "::fetch_" in x.ck or x.ck.endswith("::store") or x.ck.endswith("::swap"))
+            if not feeds:
+                return short(adt)
+    return None
 
 
 def _resolve_policy(ctx, body, t, depth):
